@@ -241,7 +241,7 @@ Proof.
   { split; intros ->; simpl in H; rewrite El in H; [discriminate|]. rewrite Et in H. discriminate. }
   destruct Hl as [H1 H2]. destruct (other_step_frame _ _ _ _ H H1 H2) as (Hloop & extra & Hm & _).
   split; [|eauto]. clear extra Hm.
-  destruct l as [m| | |w i|w|w|q]; try congruence; unfold step in H.
+  destruct l as [m| | |w i|w|w|q|pt]; try congruence; unfold step in H.
   - destruct (forallb env_item m); [|discriminate]. inversion H; subst.
     apply (stuck_transfer c p s); [exact HS | now apply AF_refl | reflexivity | intros; now left].
   - destruct (aget w (workers s)) as [[|p0 r0|p0 r0|p0 r0 t0 n0 a0 e0 x0|p0 r0]|]; try discriminate.
@@ -282,6 +282,8 @@ Proof.
       destruct (Alloc.step (al s) (ORelease q (block_bytes (e :: l)))) as [[[a1 outs] e1] ok1]. simpl in F.
       destruct F as (F1 & F2 & F3 & _). inversion H; subst.
       apply (stuck_transfer c p s); [exact HS | repeat split; auto | reflexivity | intros; now left].
+  - inversion H; subst.
+    apply (stuck_transfer c p s'); [exact HS | now apply AF_refl | reflexivity | intros; now left].
 Qed.
 
 (* the statement: from a stuck state, whatever happens (any messages arriving, any executor, any other
